@@ -196,7 +196,10 @@ def run(case):
     if which == "list":
         kw["wcses"] = [c.wcs for c in cubes]
     elif which != "default":
-        kw["wcses"] = which
+        # the name once for all cubes, or (every second case) spelled out as a list with one name per cube
+        kw["wcses"] = which if case["wseed"] % 2 else [which] * len(cubes)
+    frozen = C.freeze([kw.get("wcses") if not isinstance(kw.get("wcses"), list) else [w if isinstance(w, str) else id(w) for w in kw["wcses"]],
+                       [[repr(o) for o in p_] for p_ in pts]])
     try:
         if case["form"] == "values":
             out = seq.crop_by_values(*pts, **kw)
@@ -208,6 +211,9 @@ def run(case):
         res["impl"]["err"] = err_kind(e)
         res["oracle"] = f"valid points raised {type(e).__name__}: {str(e)[:140]}"
         return res
+    if C.freeze([kw.get("wcses") if not isinstance(kw.get("wcses"), list) else [w if isinstance(w, str) else id(w) for w in kw["wcses"]],
+                 [[repr(o) for o in p_] for p_ in pts]]) != frozen:
+        fails.append("the crop edited the points / wcses the caller passed in")
     if len(out.data) != len(cubes):
         fails.append(f"the sequence axis changed: {len(out.data)} cubes of {len(cubes)}")
     else:
